@@ -62,6 +62,9 @@ CHECKS["C10"] = ("exploration", "differential execution of one query under physi
 CHECKS["C17"] = ("exploration", "one logical pipeline executed under pull / push / mixed / parallel (1-16 workers, all morsel and chunk sizes) / spilling configurations and compared with a Vec-based reference; component monitors for morsels, merges, external sort, partitioned state, spill files",
   "Tables of boundary sizes (0, 1, chunk and morsel boundaries, up to 1e5 rows) with duplicate and null keys and every value type are pushed through chains of 1-4 operators (filter, project, limit/skip, distinct, sort, grouped aggregates) in every execution configuration the crate offers; outputs are compared as multisets (sortedness + multiset for sorts), parallel configurations are repeated to vary schedules, spill directories must be empty afterwards; a directed matrix of operator pairs runs on every invocation and failures are shrunk to skeleton signatures.",
   "Schedules are varied by repetition only (no scheduler hook); where row identity is undefined (limit over unordered streams) only counts and membership are demanded; parallel/fold.rs (rayon iterators) is not covered.", "DESIGN.md §4 C17")
+CHECKS["C12"] = ("exploration", "generated, mutated and hostile query texts and parameter maps run in watchdogged, address-space-limited child processes; outcome classes (panic / abort / signal / stack overflow / rlimit / timeout) observed from outside",
+  "Per language (GQL, Cypher, Gremlin, GraphQL, SPARQL) a fixed directed corpus (queries harvested from the repository's own tests, truncation at every byte, 30 hostile characters at every token position, arithmetic / index / function / regex / numeric-extreme matrices, every value of the value pool as a parameter, nesting ladders bisected to the smallest failing depth, clique and explosive families) plus seeded random inputs (grammar-generated, mutated, token soup) are executed against empty, mixed and dense fixtures in child processes under RLIMIT_AS = 4 GiB with a per-call bound; dead batches are bisected, timeouts re-run alone with a 60 s bound, and the outcome classifier is self-tested on every run.",
+  "'All strings' is sampled; the time bound is a wall-clock proxy (CPU-aware, confirmed alone); memory bound is an address-space limit; dev profile only (overflow findings do not panic in release).", "DESIGN.md §4 C12")
 NOT_YET = {}
 
 def main():
